@@ -207,7 +207,7 @@ def rLeiosfetchInbound (p : Nat) (st : RPeer) : List ROut :=
 /-- `TxSubmissionResponder::visit_housekeeping`: `try_init`, `try_request_tx_ids` -/
 def rTxHk (p : Nat) (st : RPeer) : List ROut :=
   (if st.isInitialized = true ∧ st.tx = .init then [.send p (.tx .init)] else []) ++
-  (if st.isInitialized = true ∧ st.tx = .idle then [.send p (.tx .requestTxIds)] else [])
+  (if st.isInitialized = true ∧ st.tx = .idle then [.send p (.tx (.requestTxIds true))] else [])
 
 /-! ## mod.rs -/
 
